@@ -20,9 +20,9 @@ func init() {
 	register("TagPurity", "C37 AutoGenerateTag: constants, free identifiers, calls, range clauses (purity)", genTagPurity)
 }
 
-type fbsField struct{ table, field, typ string }
+type schemaFbsField struct{ table, field, typ string }
 
-func parseFbs(path string) ([]fbsField, []string, error) {
+func schemaParseFbs(path string) ([]schemaFbsField, []string, error) {
 	src, err := os.ReadFile(path)
 	if err != nil {
 		return nil, nil, err
@@ -31,7 +31,7 @@ func parseFbs(path string) ([]fbsField, []string, error) {
 	text := regexp.MustCompile(`//[^\n]*`).ReplaceAllString(string(src), "")
 	tblRe := regexp.MustCompile(`(?s)table\s+(\w+)\s*\{(.*?)\}`)
 	fldRe := regexp.MustCompile(`(\w+)\s*:\s*(\[?\w+\]?)\s*(=\s*[^;()]+)?\s*(\([^)]*\))?\s*;`)
-	var out []fbsField
+	var out []schemaFbsField
 	var tables []string
 	for _, m := range tblRe.FindAllStringSubmatch(text, -1) {
 		tables = append(tables, m[1])
@@ -41,7 +41,7 @@ func parseFbs(path string) ([]fbsField, []string, error) {
 			return nil, nil, fmt.Errorf("schema.fbs: table %s has text this reader does not understand: %q", m[1], strings.TrimSpace(rest))
 		}
 		for _, f := range fldRe.FindAllStringSubmatch(body, -1) {
-			out = append(out, fbsField{m[1], snakeToCamel(f[1]), f[2]})
+			out = append(out, schemaFbsField{m[1], snakeToCamel(f[1]), f[2]})
 		}
 	}
 	if len(tables) == 0 {
@@ -51,7 +51,7 @@ func parseFbs(path string) ([]fbsField, []string, error) {
 }
 
 func genSchemaFields(c *ctx) error {
-	fields, tables, err := parseFbs(filepath.Join(c.repo, "go/serial/schema.fbs"))
+	fields, tables, err := schemaParseFbs(filepath.Join(c.repo, "go/serial/schema.fbs"))
 	if err != nil {
 		return err
 	}
